@@ -12,7 +12,7 @@ def run(ctx):
     designs = [("design add-path", dict(base, MaxDepth=99), ro.PFX2)]
     # the same path on two prefixes shares one identifier; released twice; then a new path must still get an identifier
     # identifier sensitivity: every ordered pair of d0 and its single-attribute variants on one prefix
-    dn = {"d0", "dSrc", "dId", "dLp", "dMed", "dAsp", "dComm", "dAggr", "dOtc", "dUnk", "dOid", "dOid2", "dCl"}
+    dn = {"d0", "dSrc", "dId", "dLp", "dMed", "dAsp", "dComm", "dAggr", "dOtc", "dUnk", "dOid", "dOid2", "dCl", "dCl2"}
     runs = [("gen add-path sharing", base, ro.PFX2),
             ("gen identifier sensitivity", dict(base, Names=dn, MaxDepth=4, MaxPaths=2), ro.PFX1)]
     sims = [("sim", dict(base, Names={"e1", "e2", "e3", "i1", "i2", "st", "ot"}, Pols={"accept", "setmed", "prep"}, MaxPaths=4),
